@@ -18,6 +18,41 @@ def _runner_spec():
                 budget_quick_ms=3000, budget_thorough_ms=90000)
 
 
+def _pkg_runner():
+    import prop_c20
+    prop_c20._link_pkgs()       # Sema::new looks for `pkgs` next to an ancestor of the running executable
+    return common.build_runner('c18pkg', {'dora-frontend': 'dora-frontend', 'dora-bytecode': 'dora-bytecode'}, lock=True,
+                               extra_deps=['bincode = "2.0.0-rc.3"'])
+
+
+def _package_step(tier, pre_und):
+    """Package clause, EXECUTED (not proved): programs emitted by the real front end are encoded, decoded, re-encoded, truncated and corrupted."""
+    import json
+    import shutil
+    pre_v = []
+    info = None
+    sc = common.scratch('c18pkg')
+    try:
+        runner = _pkg_runner()
+        budget = 8000 if tier == 'quick' else 90000
+        rc, out, err, wall = common.run_cmd([runner, 'search', str(common.seed()), str(budget)], env=dict(os.environ, VX_SCRATCH=sc), timeout=budget / 1000 + 600)
+        info = json.loads(out.strip().split('\n')[-1])
+        info['wall_s'] = round(wall, 1)
+        if info.get('found'):
+            what = info.get('what', '')
+            import re
+            key = 'runner:' + re.sub(r'[^a-z_ ]', '', what.split(':')[0].lower())[:60]
+            payload = dict(failing_input=dict(kind='package', text_hex=info['text_hex'], rng=info['rng'], what=what, example=info.get('example')))
+            pre_v.append((key, 'executable form of the package contract of C18 on the real crates: %s' % what.split(':')[0], payload, True))
+        elif not info.get('programs_built'):
+            pre_und.append('package runner built no program (generator templates rejected by the front end?)')
+    except Exception as e:
+        pre_und.append('package runner unavailable: %s' % str(e)[:600])
+    finally:
+        shutil.rmtree(sc, ignore_errors=True)
+    return pre_v, info
+
+
 def run(tier):
     pre_und = []
     extra = None
@@ -52,12 +87,15 @@ def run(tier):
     ]
     not_decided = ['the visitor interface (read() -> BytecodeFullIteration::dispatch_instruction -> BytecodeVisitor callbacks, 110 arms) is NOT under contract: '
                    'it is executed by the replay runner with a recording visitor generated from the trait/enum declarations (sampled, every callback compared with what was written)',
-                   'Program <-> bytes (bincode derive) round trip', 'refusal of truncated/corrupted package files',
+                   'the package clause (Program <-> bytes through the derived bincode impls; refusal of truncated / trailing / corrupted files) is NOT under contract (derive macros and bincode are outside both verifiers): '
+                   'it is EXECUTED by the runner c18pkg on programs the real front end emits (decode(encode(p)) == p, same bytes again, every proper prefix and a trailing byte refused, corrupted files decoded in a child process: never a crash): sampled',
                    'build-from-package == build-from-source', 'Dora-side readers (pkgs/boots/bytecode/reader.dora, deserializer.dora)',
                    'jump tables (resolve_jump_tables / Switch targets live in the constant pool)', 'line-number table contents']
+    pkg_v, pkg_info = _package_step(tier, pre_und)
     return vprop.run_verus_property(PROP, tier, units, runner=runner, assumptions=assumptions, samples=samples,
-                                    not_decided=not_decided, pre_undecided=pre_und,
-                                    extra_cov=dict(format_table=dict(opcodes=info.get('opcodes'), writer_methods=info.get('writer_methods'))))
+                                    not_decided=not_decided, pre_undecided=pre_und, pre_violations=pkg_v,
+                                    extra_cov=dict(format_table=dict(opcodes=info.get('opcodes'), writer_methods=info.get('writer_methods')),
+                                                   package_runner=pkg_info))
 
 
 def replay(rp):
@@ -66,6 +104,15 @@ def replay(rp):
         print('replay file carries no concrete input (no-failing-input-found); failed obligation: %s' % rp.get('obligation'))
         print(rp.get('verus_output', ''))
         return 1
+    if fi.get('kind') == 'package':
+        import shutil
+        sc = common.scratch('c18pkg')
+        try:
+            rc, out, err, _ = common.run_cmd([_pkg_runner(), 'replay', fi['text_hex'], str(fi['rng'])], env=dict(os.environ, VX_SCRATCH=sc), timeout=600)
+        finally:
+            shutil.rmtree(sc, ignore_errors=True)
+        print(out.strip())
+        return 1 if rc != 0 else 0
     spec = _runner_spec()
     runner = common.build_runner(spec['name'], spec['deps'], lock=True, extra_files=spec['extra_files'])
     rc, out, err, _ = common.run_cmd([runner, 'replay', str(fi['seed']), str(fi['iter'])])
